@@ -113,7 +113,7 @@ func (tm *termer) term(v ssa.Value, env map[ssa.Value]*Term, d int) *Term {
 	case *ssa.Const:
 		return T(c.Path(x, nil))
 	case *ssa.Global:
-		return T("global:" + short(x.String()))
+		return T(c.Path(x, nil))
 	case *ssa.MakeInterface:
 		return tm.term(x.X, env, d)
 	case *ssa.ChangeType:
